@@ -640,7 +640,9 @@ def opKeepalive (j : Json) : R Json := do
         | some s' => s := s'
         | none => return refuse i s!"the idle timer fired at {t}us, {s.idleDl - t}us before it was due ({s.idleDl}us)"
       armed := false; closedLocally := true
-    | "newconn" => armed := false; credits := 1; closedLocally := false
+    -- the installation of a connection counts as activity twice over: the new reader arms its deadline, and
+    -- the redial goroutine signals the loop (as if a pong had arrived), which renews it once more
+    | "newconn" => armed := false; credits := 2; closedLocally := false
     | "disarm" => armed := false; closedLocally := true
     | "readFail" =>
       if armed then
